@@ -23,6 +23,7 @@ type HistDriverOpts struct {
 	Only     int            // run only this history index (1-based), 0 = all
 	SignedHalf bool         // every second history runs in signed mode (transactions through the installed ante handler)
 	MintHalf   bool         // every second history starts minting in its first block
+	FanoutQ    bool         // every fourth history starts with the fan-out dispute story (HistOpts.Fanout)
 }
 
 // RunHist runs N independent random histories on fresh chains and writes one concatenated trace;
@@ -60,6 +61,9 @@ func RunHist(tracePath, statsPath string, d HistDriverOpts) error {
 			ho := d.Opts
 			if d.MintHalf {
 				ho.MintInitEarly = i%2 == 0
+			}
+			if d.FanoutQ {
+				ho.Fanout = i%4 == 2
 			}
 			w.RunHistory(ho)
 		}
